@@ -9,6 +9,7 @@ import (
 	"os/exec"
 	"path/filepath"
 	"regexp"
+	"strconv"
 	"strings"
 	"sync"
 	"time"
@@ -136,6 +137,14 @@ func replayViolation(e *Engine, j *Job, v *Violation) {
 		ctx, cancel := context.WithTimeout(context.Background(), limit)
 		cmd := exec.CommandContext(ctx, b.bin, "-test.run", "^TestVerifReplay$", "-test.timeout", "300s")
 		cmd.Env = append(os.Environ(), "VERIF_VECTOR="+vecPath)
+		for _, en := range v.Vector {
+			if en.Kind == "tzhours" {
+				// the counterexample's time zone: Etc/GMT-6 is six hours east of Greenwich (POSIX sign)
+				if h, err := strconv.Atoi(en.Val); err == nil {
+					cmd.Env = append(cmd.Env, fmt.Sprintf("TZ=Etc/GMT%+d", -h))
+				}
+			}
+		}
 		if j.Pkg == "main" {
 			cmd.Env = append(cmd.Env, "VERIF_BORNO_BIN="+bornoBinary())
 		}
